@@ -265,6 +265,11 @@ func compareEncodings(o *fw.Outcome, val any, tag, what string, outOfRoot bool) 
 		}()
 		lib, lerr = aper.MarshalWithParams(val, tag)
 	}()
+	if lerr == nil && lib != nil {
+		if m := retainCheck("aper-encode", lib, what); m != "" {
+			o.Fail("retained-encoding-changed", "%s", m)
+		}
+	}
 	ref, rerr := per.Marshal(val, tag)
 	if rerr != nil {
 		if _, isSchema := rerr.(*per.SchemaError); isSchema {
@@ -395,8 +400,13 @@ func c03Negative(c *fw.Case) (o fw.Outcome) {
 }
 
 func c03Fragment(c *fw.Case) (o fw.Outcome) {
-	sizes := []int{16383, 16384, 16385, 20000, 32767, 32768, 49152, 65535, 65536, 65537, 70000, 81920, 98304, 131072}
+	// lengths around every fragment boundary, and lengths that need three and more pieces (64K + n*16K + rest) with
+	// non-periodic content, so that a wrong read offset in a later fragment shows
+	sizes := []int{16383, 16384, 16385, 20000, 32767, 32768, 49152, 65535, 65536, 65537, 70000, 81920, 81921, 90000, 98304, 100000, 114689, 131072, 131073, 140000, 163845, 200000}
 	n := sizes[(c.Idx/250)%len(sizes)]
+	if (c.Idx/250)%2 == 1 && (c.Idx/250) >= len(sizes) {
+		return c03FragmentBits(c)
+	}
 	var v ngapType.NASPDU
 	v.Value = make([]byte, n)
 	c.R.Read(v.Value)
@@ -431,6 +441,27 @@ func c03Fragment(c *fw.Case) (o fw.Outcome) {
 		}
 		o.Fail("frag-mismatch", "OCTET STRING of %d octets: encodings differ at octet %d (library %d octets, reference %d octets; library % x / reference % x)", n, d, len(lib), len(ref), clip(lib[d:], 8), clip(ref[minInt(d, len(ref)):], 8))
 	}
+	return
+}
+
+// c03FragmentBits: the one NGAP BIT STRING whose length can need fragmentation, receiveStatusOfUL-PDCP-SDUs (SIZE(1..131072)).
+func c03FragmentBits(c *fw.Case) (o fw.Outcome) {
+	sizes := []int{16383, 16384, 16385, 20001, 32768, 49153, 65536, 65537, 100003, 131071, 131072}
+	n := sizes[(c.Idx/500)%len(sizes)]
+	var v ngapType.DRBStatusUL18
+	b := make([]byte, (n+7)/8)
+	c.R.Read(b)
+	if rem := n % 8; rem != 0 {
+		b[len(b)-1] &= 0xff << (8 - uint(rem))
+	}
+	v.ULCOUNTValue.PDCPSN18 = int64(c.R.Intn(1 << 18))
+	v.ULCOUNTValue.HFNPDCPSN18 = int64(c.R.Intn(1 << 14))
+	v.ReceiveStatusOfULPDCPSDUs = &aper.BitString{Bytes: b, BitLength: uint64(n)}
+	o.Input = fmt.Sprintf("DRBStatusUL18 with a receive-status BIT STRING of %d bits", n)
+	o.Digest, o.Nontrivial = fw.HashS("fragbits", fmt.Sprint(n)), true
+	o.Tag("fragmentation-bits")
+	compareEncodings(&o, v, "valueExt", fmt.Sprintf("DRBStatusUL18(%d bits)", n), false)
+	o.Count("fragmentation_cases", 1)
 	return
 }
 
